@@ -42,6 +42,10 @@ def _err_returns(body):
         for si, st in enumerate(body.blocks[bi]["st"]):
             if st["k"] == "assign" and st["p"]["l"] == 0 and not st["p"].get("pr") and st["r"]["k"] == "agg" and st["r"].get("variant") == "Err":
                 out.append(bi)
+        t = body.blocks[bi]["term"]
+        # `expr?`: the Err is built by FromResidual::from_residual straight into the return place
+        if t["k"] == "call" and "from_residual" in (t.get("callee") or t.get("nf") or "") and t.get("dest") and t["dest"]["l"] == 0 and not t["dest"].get("pr"):
+            out.append(bi)
     return out
 
 
@@ -77,8 +81,12 @@ def poison(prog, rep):
         for eb in errs:
             ok = False
             for e, rel, v, edge, dty in ir.edge_conditions(eb):
-                if e[0] == "discr" and "next" in show(e[1]) and rel == "==" and v == 0:
-                    ok = True
+                if e[0] == "discr" and "next" in show(e[1]):
+                    txt = show(e[1])
+                    if "branch" not in txt and rel == "==" and v == 0:
+                        ok = True           # the None edge of iter.next()
+                    if "branch" in txt and "ok_or" in txt and rel == "==" and v == 1:
+                        ok = True           # `iter.next().ok_or(UnexpectedEnd)?`: the Break edge of Try::branch
             # read_string: Err after the loop = iterator exhausted (the for loop left on None)
             if not ok and fn == "read_string":
                 ok = any(True for c in b.sccs())
